@@ -381,7 +381,7 @@ def test_symsql(seed):
     reopening; every return value and the durable table contents must agree"""
     import sqlite3, tempfile, shutil
     from sx import symsql, loader
-    sys.path.insert(0, os.environ.get("YOWSUP_REPO", "/repo"))
+    sys.path.insert(0, (os.environ.get("YOWSUP_REPO") or "/repo"))
     import yowsup.axolotl.store.sqlite.liteaxolotlstore as m
     import yowsup.axolotl.store.sqlite.liteidentitykeystore as mi
     import yowsup.axolotl.store.sqlite.litesenderkeystore as ms
